@@ -273,7 +273,52 @@ def _desc_a(layout, plan):
     return {'text': sp.to_text(build(layout, COMMENT_PLANS[plan]))}
 
 
+# ------------------------------------------------------------------ C17.e long scores
+LONG = ((300, 0), (1200, 600), (4000, 37))
+
+
+def ob_e(k: int) -> bool:
+    n = ctx.pick(2, 3)
+    assume(0 <= k < n)
+    return _e_body(choose(k, n))
+
+
+@native
+def _e_body(k):
+    from sv.ref import longdoc
+    D = longdoc.long_doc(LONG[k][0], True, LONG[k][1])
+    src = [['!!!COM: Anon']] + [[c.source() for c in r] for r in D.rows] + [['!!!EED: x']]
+    # a barline token carries its text without the measure number (C03)
+    rows = [['!!!COM: Anon']] + [[(c.exported() if c.kind == 'bar' else c.source()) for c in r] for r in D.rows] + [['!!!EED: x']]
+    doc, errs = kp.loads(sp.to_text(src))
+    check(not errs, 'import errors on the long score')
+    exp = model_order(rows)
+    got = [t.encoding for t in doc.get_all_tokens()]
+    if got != exp:
+        bad = next((i for i, (g, x) in enumerate(zip(got, exp)) if g != x), min(len(got), len(exp)))
+        check(False, f'score of {LONG[k][0]} data rows: listing has {len(got)} tokens, spine-path order {len(exp)}; first difference at {bad}: '
+                     f'{got[bad:bad + 3]} vs {exp[bad:bad + 3]}')
+    check(doc.get_all_tokens_encodings() == exp, 'get_all_tokens_encodings differs from the listing')
+    fr = doc.frequencies()
+    check(sum(v['occurrences'] for v in fr.values()) == len(exp), f'frequencies sum to {sum(v["occurrences"] for v in fr.values())}, the listing has {len(exp)} tokens')
+    seen, first = set(), []
+    for x in exp:
+        if x not in seen:
+            seen.add(x)
+            first.append(x)
+    check([t.encoding for t in doc.get_unique_tokens()] == first, 'unique listing is not the first occurrences')
+    notes = [t.encoding for t in doc.get_all_tokens(filter_by_categories=[TC.NOTE_REST])]
+    check(notes == [x for x, t in zip(exp, doc.get_all_tokens()) if t.category.name in TREE.closure('NOTE_REST')], 'NOTE_REST filter is not the sub-sequence')
+    check(doc.get_metacomments() == [r[0] for r in rows if r[0].startswith('!!')], 'get_metacomments on the long score')
+    check(kp.is_monophonic(doc) is True, 'is_monophonic: one **kern spine (a split does not add a spine), no chord, notes and rests')
+    return True
+
+
 OBLIGATIONS = [
+    Ob(id='C17.e', fn=ob_e, title='listing order, encodings, unique, frequencies, comments on long scores (hundreds to thousands of lines)',
+       shard_of=lambda k: k, shards={'quick': 2, 'thorough': 3}, budget_s={'quick': 150, 'thorough': 600}, native_body=True,
+       witnesses=[{'k': 0}], min_confirmed=2, enumerated='score length',
+       bounds={'quick': 'kern + text scores of 300 and 1200 data rows, reference records before and after, global comments inside, one split + join', 'thorough': '+ 4000 data rows'}),
     Ob(id='C17.a', fn=ob_a, title='listing order: leading comments, each spine depth-first left to right, later comments; each cell once',
        shard_of=lambda layout, plan: layout, shards={'quick': 16, 'thorough': 16}, budget_s={'quick': 170, 'thorough': 1800},
        witnesses=[{'layout': 0, 'plan': 5}], min_confirmed=500, enumerated='layout selector, global-comment plan',
